@@ -11,7 +11,7 @@ import seqmodel as sm
 from common import Toks, ztok, qtok, D
 
 ID = 'C19'
-GEN_SECTIONS = ['GenLabels', 'FP_store_events', 'FP_store_ext', 'FP_get_block', 'FP_event_lib', 'FP_labels']
+GEN_SECTIONS = ['GenLabels', 'GenFile', 'FP_store_events', 'FP_store_ext', 'FP_get_block', 'FP_event_lib', 'FP_labels']
 COQ_TARGETS = ['Props/C19.vo']
 EXTRACT_TARGETS = ['Extract/Ex_labels.vo']
 RUNNER = 'labels'
@@ -24,7 +24,12 @@ MANIFEST = {
             '(a permutation of what was added) with its library payloads; equal sorted lists share one id and '
             'different lists never do; evaluate_labels equals, for every program, init dictionary and evolution mode, '
             'a label-by-label interpreter (sequential for several operations per label, order-independent when each '
-            'block has at most one operation per label); label/extension/trigger tables are re-read from the source. '
+            'block has at most one operation per label); label/extension/trigger tables are re-read from the source; a new '
+            'extension type id never collides with one in use whatever the order of the id list (refuted for the '
+            '`[-1]` variant); file model of the extension sections (rows over the generated column tables, headers, '
+            'id<->name table): writing and re-reading gives back the extension and label rows exactly, trigger rows '
+            'within 0.5 us (exactly on whole us), the same get_block chains and the same evaluate_labels result, for '
+            'every reachable store. '
             'Random label programs (all 21 labels, SET/INC, negative/zero/boolean values, several labels and '
             'triggers/outputs per block, shared/subset/reordered extension sets, mixed with RF/gradient/ADC events) '
             'run on the implementation and on the extracted model: store after every add_block, chains, get_block '
@@ -52,7 +57,10 @@ RULE = ('label programs of 1-14 blocks over a per-program subset of the supporte
         'multisets == what was added; chains have next < id; evaluate_labels (none/adc/label/blocks x init '
         'None/{}/random) == independent per-label interpreter; all again after write+read into a fresh Sequence. '
         'Model: full store after every add_block, decoded chains, label/trigger order, evaluate_labels. '
-        'A pure stream compares the Coq evaluate_labels, the Coq interpreter and the Python oracle on label programs '
+        'A continue stream writes + reads programs whose first use of INC / SET / trigger comes in every order and only '
+        'partly before the reload, then adds blocks with the missing and the present kinds to the RE-READ object, '
+        're-checks everything and writes/reads once more; the Coq file model (write_ext/read_ext) is compared with the '
+        'store the implementation has after read(). A pure stream compares the Coq evaluate_labels, the Coq interpreter and the Python oracle on label programs '
         'directly. distinct = distinct programs; non-trivial = program has labels in >= 2 blocks and a shared or '
         'multi-entry extension list')
 TRUSTED = ['np.argsort tie order among equal reference ids is taken from NumPy (hint validated by the model)',
@@ -515,6 +523,18 @@ def run_program(ctx, case, pending):
         for i in list(s2.block_events.keys()):
             r.get(i)
         check_sequence(ctx, case, s2, expect, 'reread')
+        if case['stream'] != 'int32':
+            # theorem C19_eval_labels_reread: the label program is literally the same after the file, so the
+            # result is the same for EVERY program (also with several operations per label and block)
+            for mode in MODES:
+                a = canon_result(s.on.evaluate_labels(evolution=mode))
+                b = canon_result(s2.evaluate_labels(evolution=mode))
+                if a != b:
+                    if one_op(case):
+                        ctx.fail('C19/reread-evaluate-differs', case, {'mode': mode, 'before': a, 'after': b})
+                    else:
+                        ctx.mismatch('reread-evaluate-differs', case, {'mode': mode, 'before': a, 'after': b})
+                    break
         if ctx.model_available and case['stream'] != 'int32':
             pending.append((case, s, r.records[0]['state'], 'filemodel'))
         post_ok = True
